@@ -88,10 +88,17 @@ func runMember(dir string, mb member) (oc outcome) {
 	m := newModel(b)
 	prev := w.dump()
 	if what := historyMismatch(m, prev); what != "" {
-		// no action issued yet: not this property's verdict, but the harness cannot go on from a base state
-		// whose history is not returned as it was recorded
-		oc.CheckError = fmt.Sprintf("base state %s: the recorded history is not returned as recorded: %s", mb.Base, what)
-		return
+		// No action issued yet, so this is not a verdict of this property. The actions are issued all the same (an
+		// edit that goes wrong because of it is reported as such); a member that ends without a verdict is a check
+		// error: the base state is not what the harness recorded, nothing was validated from it.
+		baseMismatch := fmt.Sprintf("base state %s: the recorded history is not returned as recorded: %s", mb.Base, what)
+		defer func() {
+			if oc.Sig == "" && oc.CheckError == "" {
+				oc.CheckError = baseMismatch
+			} else if oc.Sig != "" {
+				oc.Detail += " [" + baseMismatch + "]"
+			}
+		}()
 	}
 	extra := "" // marks on the model state that come from silent actions (definition text, suspend flag)
 	oc.States = append(oc.States, mb.Base+"|"+m.key())
@@ -727,7 +734,7 @@ func main() {
 	}
 	res.Bounds["actions_per_sequence_le"] = 2
 	res.Bounds["depth_2_from_bases_with_a_live_run"] = fl.Thorough()
-	res.Bounds["depth_2_from_bases_3-runs/finished/ids-nested-rev_and_3-runs/crashed/ids-shared-8"] = fl.Thorough()
+	res.Bounds["depth_2_from_bases_3-runs/{failed/ids-distinct-8,finished/ids-nested-rev,crashed/ids-shared-8}"] = fl.Thorough()
 	res.Bounds["recorded_runs_per_dag_le"] = 3
 	res.Bounds["request_id_families"] = []string{"distinct in the first 8 characters", "sharing the first 8 characters", "nested prefixes of 4 / 6 / 36 characters, shortest oldest", "the same, shortest newest"}
 	res.Bounds["alphabet_size"] = len(alphabet)
